@@ -354,6 +354,35 @@ fn do_colour(f: &[&str]) -> String {
     .unwrap()
 }
 
+fn do_mspan(f: &[&str]) -> String {
+    // mspan <xsrc> <n> (ls cs le ce)*n : one report with n entries, in the given order, formatted once.
+    // Prints the span handed to the renderer for every entry, in order, and how many of the labels appear.
+    let src = unhex(f[1]);
+    let n: usize = f[2].parse().unwrap();
+    let dir = tmpdir();
+    let path = dir.join("mspan_src.rs");
+    let _ = std::fs::remove_file(&path);
+    verif::clear_source_cache();
+    std::fs::write(&path, &src).unwrap();
+    let mut report = ErrorReport::new(dir.to_str().unwrap(), "mspan_src.rs");
+    for i in 0..n {
+        let q: Vec<u32> = f[3 + 4 * i..7 + 4 * i].iter().map(|x| x.parse().unwrap()).collect();
+        report.push(node(NodeKind::Wildcard, (q[0], q[1], q[2], q[3])), format!("ACT{i}_"), None);
+    }
+    let _ = verif::take_spans();
+    let r = std::panic::catch_unwind(std::panic::AssertUnwindSafe(|| format!("{}", report)));
+    let spans = verif::take_spans();
+    let _ = std::fs::remove_file(&path);
+    let sp: Vec<String> = spans.iter().map(|(s, e)| format!("{s}:{e}")).collect();
+    match r {
+        Ok(text) => {
+            let lbls = (0..n).filter(|i| text.contains(&format!("got ACT{i}_"))).count();
+            format!("spans {} hdr={} lbls={}", sp.join(","), text.contains("assert_struct! failed") as u8, lbls)
+        }
+        Err(_) => format!("spans {} PANIC", sp.join(",")),
+    }
+}
+
 fn main() {
     if std::env::var("RT_QUIET").is_ok() { std::panic::set_hook(Box::new(|_| {})); }
     let stdin = std::io::stdin();
@@ -373,6 +402,7 @@ fn main() {
                 format!("{r}")
             }
             "span" => do_span(&f),
+            "mspan" => do_mspan(&f),
             "guard" => do_guard(&f),
             "contend" => do_contend(&f),
             "colour" => do_colour(&f),
